@@ -6,7 +6,10 @@ use std::ops::{Deref, DerefMut};
 use std::panic::{RefUnwindSafe, UnwindSafe};
 use std::sync::atomic::{AtomicUsize, Ordering};
 use std::sync::Arc;
+#[cfg(not(kani))]
 use std::sync::{LockResult, PoisonError, TryLockError, TryLockResult};
+#[cfg(kani)]
+use crate::verif_shim::poison::{LockResult, PoisonError, TryLockError, TryLockResult};
 
 use crate::cancel::trigger_cancel_panic;
 use crate::park::ParkError;
@@ -680,3 +683,7 @@ mod tests {
         assert!(rx.try_recv().is_err());
     }
 }
+
+#[cfg(kani)]
+#[path = "/verif/harness/may/sync_rwlock.rs"]
+mod verif_kani;
